@@ -17,7 +17,9 @@ RULE = ("each run = one or two timers with drawn interval {0,1,2,5}, awkward sta
         "the interval, return value, action none/cancel self/cancel other/raise), external .timerc and callback redefinition "
         "at drawn times, and a drawn dispatch latency for every deadline (exact, early within clock resolution, +eps, +0.4i, "
         "+1.7i); non-trivial = at least one tick was dispatched exactly on/early before its deadline or after a slow callback, "
-        "or a cancellation/redefinition happened; distinct = distinct digest of the (time, tick, action, result) log")
+        "or a cancellation/redefinition happened; distinct = distinct digest of the (time, tick, action, result) log.  Also "
+        "drawn: true return values other than 1, two cancellations in one callback invocation, the callback name holding a plain "
+        "value for a while, a callback function that had another name before, a timer whose handle nobody keeps")
 ASSUMPTIONS = [
     "tolerance of one clock resolution plus 4 ulp on boundary comparisons; a callback end that coincides with a boundary may arm either neighbour",
     "behaviour after a callback raised is unspecified by the property: only 'no early / no double tick' is still checked",
@@ -30,7 +32,9 @@ REAL_STUB = {
 }
 EXPECTED_PROBES = ["probe_dispatch_exact", "probe_dispatch_early", "probe_dispatch_late_gt_interval", "probe_slow_callback_skips_boundary",
                    "probe_cancel_self_in_callback", "probe_cancel_other", "probe_external_cancel_live", "probe_external_cancel_dead",
-                   "probe_redefine", "probe_callback_raised", "probe_interval0"]
+                   "probe_redefine", "probe_callback_raised", "probe_interval0", "probe_true_return_other_than_1",
+                   "probe_callback_name_rebound_to_value", "probe_tick_while_name_holds_a_value",
+                   "probe_callback_function_known_under_another_name_before", "probe_timer_whose_handle_is_not_kept"]
 WALL_CAP = {"quick": 300, "thorough": 3600}
 
 STARTS = [0.0, 0.1, 0.3, 1e9 + 0.7, 7.25, 1234.567, 0.7, 2.0 / 3.0, 1e6 + 0.1]
